@@ -149,12 +149,12 @@ func zzC0607Exposure(twoRules bool) {
 		var peers []netv1.NetworkPolicyPeer
 		var ports []netv1.NetworkPolicyPort
 		if twoRules {
-			if r == 0 {
-				peers = zzExpPeers(g, 4)
-				ports = zzPortsMenu(rn, []int{1, 3, 5}[vf_Choose(rn+".ports", 3)])
-			} else {
-				peers = zzExpPeers(g, 2+vf_Choose(rn+".peers", 2))
-				ports = zzPortsMenu(rn, []int{0, 1, 3, 5}[vf_Choose(rn+".ports", 4)])
+			if r == 0 { // entire cluster, or a pod selector in the policy's namespace (no namespace selector)
+				peers = zzExpPeers(g, []int{4, 2}[vf_Choose(rn+".peers", 2)])
+				ports = zzPortsMenu(rn, []int{1, 5}[vf_Choose(rn+".ports", 2)])
+			} else { // selector peers, with and without a namespace selector, some on the same pod labels as r0's
+				peers = zzExpPeers(g, []int{2, 3, 5, 9}[vf_Choose(rn+".peers", 4)])
+				ports = zzPortsMenu(rn, []int{0, 1, 3}[vf_Choose(rn+".ports", 3)])
 			}
 		} else {
 			peers = zzExpPeers(g, vf_Choose(rn+".peers", zzNExpPeers))
